@@ -8,9 +8,10 @@ import (
 // symbolic (numbers for list functions, code points for text functions); x, y are numbers, z a
 // code point.
 type in struct {
-	a, b []*smt.Expr
-	x, y *smt.Expr
-	z    *smt.Expr
+	parts [][]*smt.Expr // elements of a Text Liste argument
+	a, b  []*smt.Expr
+	x, y  *smt.Expr
+	z     *smt.Expr
 }
 
 // seq: an expected sequence with a (possibly symbolic) length; el[k] is meaningful for k < n.
